@@ -303,18 +303,36 @@ func isZeroStoreTo(in ssa.Instruction, fld string) bool {
 		return false
 	}
 	fa, ok := st.Addr.(*ssa.FieldAddr)
-	if !ok || !isServiceState(fa.X.Type()) || fieldName(fa.X, fa.Field) != fld {
+	if !ok || !isServiceState(fa.X.Type()) {
 		return false
 	}
 	c, ok := st.Val.(*ssa.Const)
 	if !ok {
 		return false
 	}
+	if fieldName(fa.X, fa.Field) != fld {
+		// the zero value of a nested state struct clears all of its members (`s.endpoint = endpoint{}`)
+		return c.Value == nil && structHasField(fa.Type().(*types.Pointer).Elem(), fld, 0)
+	}
 	if c.Value == nil {
 		return true
 	}
 	s := constTerm(c)
 	return s == `const:""` || s == "const:false" || s == "const:0"
+}
+
+// structHasField: t is a struct with a member named fld, directly or in a nested struct member.
+func structHasField(t types.Type, fld string, depth int) bool {
+	st, ok := t.Underlying().(*types.Struct)
+	if !ok || depth > 3 {
+		return false
+	}
+	for i := 0; i < st.NumFields(); i++ {
+		if st.Field(i).Name() == fld || structHasField(st.Field(i).Type(), fld, depth+1) {
+			return true
+		}
+	}
+	return false
 }
 
 func isStoreToServiceField(in ssa.Instruction, fld string) bool {
